@@ -331,6 +331,73 @@ func init() {
 			}
 			os.Remove(path)
 		}
+		// what a lookup answers does not depend on the other ways the same reader was asked before: resolving
+		// references (Resolve, ResolveReference, ResolveDeep) in any order between lookups changes no later answer
+		{
+			objs := []string{
+				"<< /Type /Catalog /Pages 2 0 R /Names [3 0 R 4 0 R (direct) [5 0 R]] >>",
+				"<< /Type /Pages /Kids [] /Count 0 >>",
+				"[4 0 R 5 0 R 6 0 R]",
+				"<< /A [5 0 R 6 0 R] /B 6 0 R /C << /D [3 0 R] >> >>",
+				"(five)",
+				"66",
+			}
+			path := tmpFile(r, ".pdf", c02RawPDF(objs, ""))
+			show := func(o core.Object, err error) string {
+				if err != nil {
+					return "error: " + err.Error()
+				}
+				return Str(c06Obj(o)) // dictionaries by sorted key
+			}
+			fresh := map[int]string{}
+			for n := 1; n <= 6; n++ {
+				if rd, err := reader.Open(path); err == nil {
+					fresh[n] = show(rd.GetObject(n))
+					rd.Close()
+				}
+			}
+			drng := NewRNG(0xC04D)
+			for trial := 0; trial < 40; trial++ {
+				rd, err := reader.Open(path)
+				if err != nil {
+					r.Check(false, "lookup-history", "generated file does not open: "+err.Error(), Bs(path))
+					break
+				}
+				why := ""
+				var hist []string
+				for step := 0; step < 12 && why == ""; step++ {
+					n := drng.Range(1, 6)
+					switch drng.Intn(5) {
+					case 0:
+						hist = append(hist, fmt.Sprintf("ResolveDeep(%d 0 R)", n))
+						rd.ResolveDeep(core.IndirectRef{Number: n})
+					case 1:
+						hist = append(hist, fmt.Sprintf("ResolveDeep(GetObject(%d))", n))
+						if o, err := rd.GetObject(n); err == nil {
+							rd.ResolveDeep(o)
+						}
+					case 2:
+						hist = append(hist, fmt.Sprintf("ResolveReference(%d 0 R)", n))
+						rd.ResolveReference(core.IndirectRef{Number: n})
+					case 3:
+						hist = append(hist, "ClearCache")
+						rd.ClearCache()
+					default:
+						hist = append(hist, fmt.Sprintf("GetObject(%d)", n))
+						if got := show(rd.GetObject(n)); got != fresh[n] {
+							why = fmt.Sprintf("after %v object %d is %s; a fresh reader says %s", hist, n, got, fresh[n])
+						}
+					}
+				}
+				for n := 1; n <= 6 && why == ""; n++ {
+					if got := show(rd.GetObject(n)); got != fresh[n] {
+						why = fmt.Sprintf("after %v object %d is %s; a fresh reader says %s", hist, n, got, fresh[n])
+					}
+				}
+				rd.Close()
+				r.Check(why == "", "lookup-history", why, Bs(path))
+			}
+		}
 	}
 }
 
